@@ -14,6 +14,7 @@ import (
 	"io/ioutil"
 	"math/rand"
 	"net/http"
+	"os"
 	"path/filepath"
 	"sort"
 	"strings"
@@ -557,7 +558,25 @@ func gapFree(have map[uint64]bool) uint64 {
 }
 
 // runPlan executes one plan against a fresh follower
-func runPlan(r *vf.Run, bin, dir string, idx int, race bool) (stderr []byte) {
+// runPlanRetry repeats a plan once if it could not even be set up (node start, introduction):
+// a start-up watchdog on a loaded machine says nothing about the property
+func runPlanRetry(r *vf.Run, bin, dir string, idx int, race bool) []byte {
+	why := ""
+	for attempt := 0; attempt < 2; attempt++ {
+		_ = os.RemoveAll(dir)
+		_ = os.MkdirAll(dir, 0755)
+		stderr, setupErr := runPlan(r, bin, dir, idx, race)
+		if setupErr == "" {
+			return stderr
+		}
+		why = setupErr
+		r.Count("plans.setup-repeated", 1)
+	}
+	r.Inconclusive("plan could not be set up twice: " + why)
+	return nil
+}
+
+func runPlan(r *vf.Run, bin, dir string, idx int, race bool) (stderr []byte, setupErr string) {
 	label := "plan"
 	if race {
 		label = "race-plan"
@@ -569,8 +588,7 @@ func runPlan(r *vf.Run, bin, dir string, idx int, race bool) (stderr []byte) {
 	tag := fmt.Sprintf("c33-%d-%s-%d", r.Seed, label, idx)
 	rc, err := buildChain(rng, tag, dir, n)
 	if err != nil {
-		r.Inconclusive("reference chain: " + err.Error())
-		return nil
+		return nil, "reference chain: " + err.Error()
 	}
 	p.rc, p.n = rc, uint64(n)
 	// loss: what the peers hold
@@ -586,8 +604,7 @@ func runPlan(r *vf.Run, bin, dir string, idx int, race bool) (stderr []byte) {
 		GenesisSig: hex.EncodeToString(rc.Chain.GenesisSig[:]), Publisher: false, DisableCSRF: true}
 	proc, err := node.Spawn(bin, filepath.Join(dir, "child"), opts)
 	if err != nil {
-		r.Inconclusive("follower did not start: " + err.Error())
-		return nil
+		return nil, "follower did not start: " + err.Error()
 	}
 	p.proc = proc
 	defer func() {
@@ -613,7 +630,7 @@ func runPlan(r *vf.Run, bin, dir string, idx int, race bool) (stderr []byte) {
 	for i := 0; i <= np; i++ {
 		pr, err := wire.Dial(proc.PeerAddr)
 		if err != nil {
-			r.Inconclusive("dial: " + err.Error())
+			setupErr = "dial: " + err.Error()
 			return
 		}
 		if i == np {
@@ -623,7 +640,7 @@ func runPlan(r *vf.Run, bin, dir string, idx int, race bool) (stderr []byte) {
 		}
 		p.lastUsed[pr] = time.Now()
 		if !pr.Introduce(rc.Chain.Publisher.Pub, uint32(1000+i), watchdog) || !pr.Barrier(watchdog) {
-			r.Inconclusive("peer could not introduce itself")
+			setupErr = "peer could not introduce itself"
 			return
 		}
 		// the follower asks a new peer for blocks above its head right away
